@@ -1,20 +1,29 @@
 ------------------------------- MODULE KUpgradeMC -------------------------------
 (* Exhaustive small model: two built-in entries (one defined with a single-valued and a multi-valued attribute,
    one new at the target level), one user entry; before the upgrade the user may add values to the multi-valued
-   attribute of the built-in entry, replace its single-valued attribute, create / edit / recycle the user entry;
+   attribute of the built-in entry, REMOVE a proper non-empty subset of its defined values (RemoveSome), replace its
+   single-valued attribute, create / edit / recycle the user entry;
    the upgrade asserts every target definition (L2).  L1 must hold for every pre-state. *)
 EXTENDS KUpgrade
 VARIABLES db, phase
 
-DefPrev == [b \in {"b1"} |-> [x \in {"s", "m"} |-> IF x = "s" THEN <<"p">> ELSE <<"d1">>]]
-DefTgt  == [b \in {"b1", "b2"} |-> IF b = "b1" THEN [x \in {"s", "m"} |-> IF x = "s" THEN <<"q">> ELSE <<"d1", "d2">>]
-                                     ELSE [x \in {"s"} |-> <<"n">>]]
+DefPrev == [b \in {"b1", "b3"} |-> IF b = "b1" THEN [x \in {"s", "m"} |-> IF x = "s" THEN <<"p">> ELSE <<"d0", "d1">>]
+                                     ELSE [x \in {"k"} |-> <<"k0", "k1">>]]
+\* b1: single-valued attribute changes, multi-valued one gains d2; b2 is new; b3 is defined exactly as before
+DefTgt  == [b \in {"b1", "b2", "b3"} |-> IF b = "b1" THEN [x \in {"s", "m"} |-> IF x = "s" THEN <<"q">> ELSE <<"d0", "d1", "d2">>]
+                                     ELSE IF b = "b2" THEN [x \in {"s"} |-> <<"n">>] ELSE [x \in {"k"} |-> <<"k0", "k1">>]]
 Single == {"s"}
 User == [u \in {"u1"} |-> <<"m", "s">>]
 
-Init == db = [b \in {"b1"} |-> [live |-> "live", attrs |-> DefPrev[b]]] /\ phase = "pre"
+Init == db = [b \in {"b1", "b3"} |-> [live |-> "live", attrs |-> DefPrev[b]]] /\ phase = "pre"
 AddMember == phase = "pre" /\ \E v \in {"u1", "x"} : v \notin Range(db["b1"].attrs["m"])
                /\ db' = [db EXCEPT !["b1"].attrs["m"] = Append(@, v)] /\ UNCHANGED phase
+\* an administrator removes some - not all - of the defined values (user-added ones stay)
+RemoveSome == phase = "pre" /\ \E ba \in {<<"b1", "m">>, <<"b3", "k">>} : LET b == ba[1]  x == ba[2]  D == Range(DefPrev[b][x]) IN
+                 \E S \in (SUBSET D) \ {{}, D} :
+                    /\ S \subseteq Range(db[b].attrs[x])
+                    /\ (Range(db[b].attrs[x]) \ S) \cap D # {}
+                    /\ db' = [db EXCEPT ![b].attrs[x] = SelectSeq(@, LAMBDA v : v \notin S)] /\ UNCHANGED phase
 SetSingle == phase = "pre" /\ db' = [db EXCEPT !["b1"].attrs["s"] = <<"custom">>] /\ UNCHANGED phase
 CreateUser == phase = "pre" /\ "u1" \notin DOMAIN db
                /\ db' = [x \in DOMAIN db \cup {"u1"} |-> IF x = "u1" THEN [live |-> "live", attrs |-> [a \in {"m", "s"} |-> <<"v">>]] ELSE db[x]]
@@ -25,8 +34,13 @@ RecycleUser == phase = "pre" /\ "u1" \in DOMAIN db /\ db["u1"].live = "live" /\ 
 RECURSIVE AssertAll(_, _)
 AssertAll(d, us) == IF us = {} THEN d ELSE LET u == CHOOSE x \in us : TRUE IN AssertAll(AssertDef(d, DefTgt[u], u, Single), us \ {u})
 Upgrade == phase = "pre" /\ db' = AssertAll(db, DOMAIN DefTgt) /\ phase' = "post"
-Next == AddMember \/ SetSingle \/ CreateUser \/ EditUser \/ RecycleUser \/ Upgrade
+Next == AddMember \/ RemoveSome \/ SetSingle \/ CreateUser \/ EditUser \/ RecycleUser \/ Upgrade
 Spec == Init /\ [][Next]_<<db, phase>>
+\* vacuity guard: the same upgrade with the "one value per attribute is enough" shortcut
+RECURSIVE AssertAllSkip(_, _)
+AssertAllSkip(d, us) == IF us = {} THEN d ELSE LET u == CHOOSE x \in us : TRUE IN AssertAllSkip(AssertDefSkipAny(d, DefTgt[u], u, Single), us \ {u})
+UpgradeSkip == phase = "pre" /\ db' = AssertAllSkip(db, DOMAIN DefTgt) /\ phase' = "post"
+SpecSkip == Init /\ [][AddMember \/ RemoveSome \/ SetSingle \/ CreateUser \/ EditUser \/ RecycleUser \/ UpgradeSkip]_<<db, phase>>
 UserOf(d) == [u \in DOMAIN User \cap DOMAIN d |-> User[u]]
 UpgradeOk == [][phase' = "post" /\ phase = "pre" => L1Upgrade(db, db', UserOf(db), DefTgt, "ok", <<>>)]_<<db, phase>>
 =============================================================================
